@@ -930,6 +930,124 @@ impl<'a> VisitMut for Rules<'a> {
             }
         }
         // R37: `A.iter().all(|p| BODY)` -> index loop with early exit (std definition of Iterator::all)
+        if self.ctx.on("R52") {
+            // R52: `A.iter().all(|p| B)` / `.any(|p| B)` -> while loop WITHOUT break: `while i < n && flag { if !(B) { flag = false; } i += 1; }`
+            // (std definition: in order, stops after the first deciding element); the exit condition is then known to the verifier
+            if let syn::Expr::MethodCall(mc) = e {
+                let is_all = mc.method == "all";
+                if (is_all || mc.method == "any") && mc.args.len() == 1 {
+                    if let (syn::Expr::MethodCall(it), syn::Expr::Closure(cl)) = (&*mc.receiver, &mc.args[0]) {
+                        if it.method == "iter" && it.args.is_empty() && cl.inputs.len() == 1 {
+                            let a = (*it.receiver).clone();
+                            let p = match &cl.inputs[0] { syn::Pat::Type(pt) => (*pt.pat).clone(), q => q.clone() };
+                            let body = (*cl.body).clone();
+                            let k = self.ctx.fresh();
+                            let nn = syn::Ident::new(&format!("vx_n{}", k), proc_macro2::Span::call_site());
+                            let ii = syn::Ident::new(&format!("vx_i{}", k), proc_macro2::Span::call_site());
+                            let rr = syn::Ident::new(&format!("vx_go{}", k), proc_macro2::Span::call_site());
+                            // vx_go: "undecided so far" (all: every element so far was true; any: every element so far was false)
+                            let new: syn::Expr = if is_all {
+                                syn::parse_quote!({
+                                    let mut #rr = true;
+                                    let #nn = #a.len();
+                                    let mut #ii: usize = 0;
+                                    while #ii < #nn && #rr {
+                                        let #p = &#a[#ii];
+                                        if !(#body) { #rr = false; }
+                                        #ii = #ii + 1;
+                                    }
+                                    #rr
+                                })
+                            } else {
+                                syn::parse_quote!({
+                                    let mut #rr = true;
+                                    let #nn = #a.len();
+                                    let mut #ii: usize = 0;
+                                    while #ii < #nn && #rr {
+                                        let #p = &#a[#ii];
+                                        if #body { #rr = false; }
+                                        #ii = #ii + 1;
+                                    }
+                                    !#rr
+                                })
+                            };
+                            *e = new;
+                            self.ctx.used("R52");
+                            syn::visit_mut::visit_expr_mut(self, e);
+                            return;
+                        }
+                    }
+                }
+            }
+        }
+        if self.ctx.on("R37") {
+            // R37b: `A.iter().any(|p| B)` -> loop with early exit (std definition of Iterator::any: in order, stops at the first true)
+            if let syn::Expr::MethodCall(any) = e {
+                if any.method == "any" && any.args.len() == 1 {
+                    if let (syn::Expr::MethodCall(it), syn::Expr::Closure(cl)) = (&*any.receiver, &any.args[0]) {
+                        if it.method == "iter" && it.args.is_empty() && cl.inputs.len() == 1 {
+                            let a = (*it.receiver).clone();
+                            let p = match &cl.inputs[0] { syn::Pat::Type(pt) => (*pt.pat).clone(), q => q.clone() };
+                            let body = (*cl.body).clone();
+                            let k = self.ctx.fresh();
+                            let nn = syn::Ident::new(&format!("vx_n{}", k), proc_macro2::Span::call_site());
+                            let ii = syn::Ident::new(&format!("vx_i{}", k), proc_macro2::Span::call_site());
+                            let rr = syn::Ident::new(&format!("vx_any{}", k), proc_macro2::Span::call_site());
+                            *e = syn::parse_quote!({
+                                let mut #rr = false;
+                                let #nn = #a.len();
+                                for #ii in 0..#nn {
+                                    let #p = &#a[#ii];
+                                    if #body { #rr = true; break; }
+                                }
+                                #rr
+                            });
+                            self.ctx.used("R37");
+                            syn::visit_mut::visit_expr_mut(self, e);
+                            return;
+                        }
+                    }
+                }
+            }
+        }
+        if self.ctx.on("R51") {
+            // R51: `A.iter().map(|p| F).fold(INIT, f64::min | f64::max)` -> accumulator loop `acc = acc.min(F)` (std definitions of map / fold;
+            // `f64::min(a, b)` is `a.min(b)`)
+            if let syn::Expr::MethodCall(fd) = e {
+                if fd.method == "fold" && fd.args.len() == 2 {
+                    let which = match &fd.args[1] { syn::Expr::Path(p) => { let t = norm(&p.to_token_stream().to_string()); if t == "f64::min" { Some("min") } else if t == "f64::max" { Some("max") } else { None } }, _ => None };
+                    if let (Some(w), syn::Expr::MethodCall(map)) = (which, &*fd.receiver) {
+                        if map.method == "map" && map.args.len() == 1 {
+                            if let (syn::Expr::Closure(cl), syn::Expr::MethodCall(it)) = (&map.args[0], &*map.receiver) {
+                                if it.method == "iter" && it.args.is_empty() && cl.inputs.len() == 1 {
+                                    let a = (*it.receiver).clone();
+                                    let p = match &cl.inputs[0] { syn::Pat::Type(pt) => (*pt.pat).clone(), q => q.clone() };
+                                    let body = (*cl.body).clone();
+                                    let init = fd.args[0].clone();
+                                    let k = self.ctx.fresh();
+                                    let nn = syn::Ident::new(&format!("vx_n{}", k), proc_macro2::Span::call_site());
+                                    let ii = syn::Ident::new(&format!("vx_i{}", k), proc_macro2::Span::call_site());
+                                    let acc = syn::Ident::new(&format!("vx_acc{}", k), proc_macro2::Span::call_site());
+                                    let m = syn::Ident::new(w, proc_macro2::Span::call_site());
+                                    *e = syn::parse_quote!({
+                                        let mut #acc: f64 = #init;
+                                        let #nn = #a.len();
+                                        for #ii in 0..#nn {
+                                            let #p = &#a[#ii];
+                                            #acc = #acc.#m(#body);
+                                        }
+                                        #acc
+                                    });
+                                    self.ctx.used("R51");
+                                    syn::visit_mut::visit_expr_mut(self, e);
+                                    return;
+                                }
+                            }
+                        }
+                    }
+                }
+            }
+        }
         if self.ctx.on("R37") {
             if let syn::Expr::MethodCall(all) = e {
                 if all.method == "all" && all.args.len() == 1 {
